@@ -118,7 +118,9 @@ func c11R3(c *engine.Ctx) {
 	if fn == nil {
 		return
 	}
-	calls := engine.CallsTo(fn, false, "github.com/gotd/ige.DecryptBlocks")
+	// in the function or in a helper of the package it calls (the guard is looked
+	// for next to the call, in the same function)
+	calls := callsToWithHelpers(fn, 2, "github.com/gotd/ige.DecryptBlocks")
 	for _, call := range calls {
 		args := call.Common().Args
 		ok := engine.GuardedBy(call, func(k engine.Cmp) bool {
@@ -150,6 +152,16 @@ func c11R3(c *engine.Ctx) {
 			continue
 		}
 		issues, n := bd.CheckFunc(f)
+		for _, h := range withHelpers(f, 2) {
+			if h == f || h.Name() == "GuessDataWithHash" {
+				continue
+			}
+			hi, hn := bd.CheckFunc(h)
+			n += hn
+			for _, is := range hi {
+				c.Fail("C11.R4", name+"/"+h.Name()+"/"+is.What+"#"+ordinal(h, is.Instr), is.Instr.Pos(), "%s", is.Detail)
+			}
+		}
 		sites += n
 		for _, is := range issues {
 			c.Fail("C11.R4", name+"/"+is.What+"#"+ordinal(f, is.Instr), is.Instr.Pos(), "%s", is.Detail)
